@@ -137,14 +137,14 @@ theorem cTemplates_run (ts : List (List (List (List Int))))
   unfold cTemplates; simp only [h]; rw [if_pos hk]
 
 theorem cPcInd_run (tables : List (List (List Nat)))
-    (h : loadEach (readTable fs "pc_feature_ind.npy") subdirs = .ok tables) :
+    (h : loadEach (readTable fs "pc_feature_ind.npy") subdirs = .ok tables) (hk : sameWidth tables = true) :
     cPcInd subdirs fs reg = .ok ([("pc_feature_ind.npy", .table (C12.shiftTables tables reg.chanIndexOffsets))], reg) := by
-  unfold cPcInd; simp only [h]
+  unfold cPcInd; simp only [h]; rw [if_pos hk]
 
 theorem cTfInd_run (tables : List (List (List Nat)))
-    (h : loadEach (readTable fs "template_feature_ind.npy") subdirs = .ok tables) :
+    (h : loadEach (readTable fs "template_feature_ind.npy") subdirs = .ok tables) (hk : sameWidth tables = true) :
     cTfInd subdirs fs reg = .ok ([("template_feature_ind.npy", .table (C12.shiftTables tables reg.templateOffsets))], reg) := by
-  unfold cTfInd; simp only [h]
+  unfold cTfInd; simp only [h]; rw [if_pos hk]
 
 theorem cMisc_run (fn : String) (ms : List (Option (List (List Int))))
     (h : loadEach (readMatOpt fs fn) subdirs = .ok ms) :
